@@ -98,4 +98,22 @@ CHECKS = {
         "text": "Per source every case-folded string has exactly one owner, names are among aliases, sources agree; every lookup for all 817 strings x 4 case variants through find and the three isotherm classes is validated against FindSpec; store histories are executed on the real registry and validated step by step; 14 property methods x backend usable/unknown/missing x user property all/none/partial x calculate x temperature class x 8 units are judged for outcome class and value; 81 backend-linked adsorbates x 7-31 temperatures against the consistency clauses.",
         "note": "Trusted: Python str.lower for case folding; CoolProp PropsSI as the independent decider of whether the backend can deliver and as value reference; SI pressure-unit constants in the spec; temperatures below the triple point are outside the quantifier.",
     },
+    "C17": {
+        "level": "exploration",
+        "technique": "published slit-pore HK equation with Kirkwood-Mueller constants (CODATA literals, nothing read from the code) and the relational clauses in spec/HK.tla; HKMC model-checked (3 780 states: FormsAgree, Increasing, Physical); HKOracle (DecFloat) evaluates ln p for chosen widths in the spec and judges recorded runs of psd_horvath_kawazoe, psd_horvath_kawazoe_ry and psd_microporous",
+        "text": "TLC evaluates the published slit equation for chosen widths between the geometric minimum and 3 nm; the library must map the resulting pressures back to those widths (1e-3) for HK and HK-CY; every model x geometry x adsorbent x adsorbate x temperature scenario is judged on: the width solves or brackets a crossing of the library's own potential, W = g*L - d_h, widths non-decreasing in the equation's right-hand side, cumulative volume = n*M/rho_L, distribution = dV/dW.",
+        "note": "Trusted: the potential closures are observed by wrapping psd_micro._solve_hk/_solve_hk_cy (call-through; exit 2 if renamed); literature fidelity of the cylinder, sphere and Rege-Yang potentials is not decided (DESIGN section 8); Cheng-Yang coverage taken as n/(1.01 max n), the library's convention. Two known findings (Rege-Yang local minimum / non-monotone widths).",
+    },
+    "C18": {
+        "level": "exploration",
+        "technique": "spec/Kernel.tla enumerates the scenarios (unit, pair and dense weight vectors x grids x limits x spline orders by rotation) and states the clauses; KernelMC model-checked (8 256 states: WellFormed, Covers); KernelOracle (DecFloat) judges psd_dft runs on isotherms built as exact combinations of kernel-file columns (file read as input data), incl. a 5-column user kernel",
+        "text": "distribution >= -1e-9; cumulative volume non-decreasing and equal to the running integral; order 0: kernel-weighted sum equals kernel_loading (1e-5); RSS to the input <= 0.2; kernel_loading independent of spline order; reported limits equal the points inside the requested limits and changing points outside them changes nothing; pressures outside the kernel range raise CalculationError.",
+        "note": "Trusted: 'optimiser tolerance' read as an absolute RSS bound (observed headroom ~33x); 0 <= p < smallest kernel pressure not judged; between-rows grids use the library's own interpolators for the columns. Known finding: SLSQP stops early on very large loadings.",
+    },
+    "C19": {
+        "level": "exploration",
+        "technique": "spec/Enthalpy.tla enumerates the scenarios and states the clauses; EnthalpyMC model-checked (1 872 states: PermOk, Partition, Tols); EnthalpyOracle (DecFloat) judges recorded results of isosteric_enthalpy, enthalpy_sorption_whittaker and initial_enthalpy_point",
+        "text": "Isosteric: dH in {5,10,20,40,60} kJ/mol x all 26 temperature subsets x ascending/descending/rotated order x Langmuir/Toth/DS-Langmuir x model isotherm or 300-point isotherm x 3 unit configurations: result = dH at every loading (1e-6 / 1e-2), slope = -dH/R. Whittaker: TLC computes p_k, classifies each loading against p_triple, min(p_sat,p_c), p_c and requires lambda + h_vap + RT (1e-6); inside loadings reported, loadings above p_c omitted. Initial enthalpy point: first enthalpy row of the chosen branch over 12 branch layouts x 3 patterns x 2 branches.",
+        "note": "Trusted: K(T), ln and real powers are harness input (R = 8.314462618); h_vap, p_triple, p_sat, p_c are adsorbate-API observations; omission is checked as inclusion ('omits only'); relative-pressure mode and volume_liquid basis are not 'common units' and are not exercised.",
+    },
 }
